@@ -15,6 +15,7 @@ INV = {
     "C20": ["RetryBound", "BackoffSequence", "RetryOnlyConnect", "LastErrorRaised", "NoRetryAfterEstablished"],
     "C10": ["TlsIffSecure", "SniAlpn", "ProtoChoice", "Routing"],
     "C16": ["TimeoutTag", "NoTimeoutMeansUnlimited"],
+    "C06": ["FailureClosesStream"],
     "C11": ["ConnectFirst", "NoHttpBeforeSocksSuccess", "RefusalStops", "ForwardAbsoluteForm", "SecretsOnProxyHopOnly", "CallerDataNotInConnect", "SocksAsConfigured", "MergedNotRepeated"],
 }
 VACUITY = {
@@ -22,8 +23,11 @@ VACUITY = {
     "C10": [("DevTunnelTls", "TlsIffSecure"), ("DevSocksTls", "TlsIffSecure"), ("DevTunnelSni", "SniAlpn")],
     "C16": [("DevSocksTmo", "TimeoutTag")],
     "C11": [],
+    "C06": [("DevSocksLeak", "FailureClosesStream")],
 }
-GROUP = {"C10": "G10", "C11": "G11", "C16": "G16", "C20": "G20"}
+# (C06: no property group of its own - the lock step and the end-of-log clause "no stream is left open after
+#  a failed establishment" (EstablishTrace.TEnd) are what decides)
+GROUP = {"C10": "G10", "C11": "G11", "C16": "G16", "C20": "G20", "C06": "GNone"}
 
 
 def mc_cfg(cases, invs, dev="NoDev"):
@@ -37,6 +41,8 @@ def case_filter(prop, tier):
     quick = tier == "quick"
     if prop == "C20":
         return lambda c: c["proxy"] == "none" and c["http1"] and not c["http2"] and not c["sniExt"] and not c["alpnH2"] and c["tmo"] and c["scheme"] in ("http", "https") and not c["body"]
+    if prop == "C06":
+        return lambda c: c["retries"] in (0, 1) and c["tmo"] and not c["body"] and c["phdr"] == "none" and not c["sniExt"] and (not quick or not c["uds"])
     if prop == "C10":
         return lambda c: c["retries"] == 0 and c["tmo"] and not c["body"] and c["phdr"] == "none" and (not quick or not c["uds"])
     if prop == "C16":
@@ -167,10 +173,20 @@ def run_into(chk, prop, tier):
             if prop in ("C16", "C20") and c["tmo"] and c["retries"] >= 2:
                 # the same outcome scripts with a connect timeout shorter than the back-off pauses
                 variants += [(dict(c, tight=True), o, r) for _, o, r in list(variants)]
+            if prop in ("C10", "C11") and not c["uds"]:
+                # the same case with the caller's 'target' extension, and with an IPv6 literal as origin host
+                # (not through SOCKS: the address type of the SOCKS command is not part of the abstraction)
+                variants.append((dict(c, tgtExt=True), [], None))
+                if c["proxy"] != "socks5":
+                    variants.append((dict(c, v6=True), [], None))
+                    variants.append((dict(c, v6=True, tgtExt=True), [], None))
             for c2, outcomes, refuse in variants:
                 t = E.record(c2, outcomes, refuse, m)
                 if c2.get("tight"):
                     t["meta"]["tight_connect_timeout"] = True
+                for vk in ("tgtExt", "v6"):
+                    if c2.get(vk):
+                        t["meta"][vk] = True
                 evals += 1
                 key = (tuple(sorted(c.items())), tuple((tuple(sorted(o.items(), key=str))) for o in map(lambda o: {k: (tuple(v) if isinstance(v, list) else v) for k, v in o.items()}, t["ops"])), t["result"], t["open_after"])
                 if key in seen:
